@@ -97,6 +97,7 @@ class Report:
         self.extra = {}
         self.level = "model_checking"
         self.validated = 0
+        self.e3 = []
         self.obligations = 0
         self.discharged = 0
 
@@ -116,6 +117,9 @@ class Report:
             self.cases.append(c)
         for e in res.col.errors:
             self.errors.append("%s: %s" % (name, e))
+        for x in getattr(res.col, "e3", []):
+            if len(self.e3) < 60:
+                self.e3.append(x)
         self.cov |= res.cov
         return part
 
@@ -131,6 +135,11 @@ def finish(rep, prop, stubs=(), checker_cmd=None):
     Returns the process exit code."""
     known = load_known()
     pid = rep.pid
+    try:
+        from . import guards
+        guards.cross_solver(rep, rep.e3)
+    except Exception as ex:  # noqa
+        rep.errors.append("cross-solver re-check failed to run: %r" % (ex,))
     verdicts = []
     all_cases = rep.cases + rep.probe_cases
     harness_err = list(rep.errors)
